@@ -717,10 +717,14 @@ class Interp:
                 if e[3] not in span:
                     span[e[3]] = [set(reg), k, k]
                 span[e[3]][2] = k
+        starts = sorted(v[1] for v in span.values())
         for token, (reg0, first, last) in span.items():
             q = queued[token]
             if token in self.half or not q.get('had_listener'):
                 continue
+            # the event is in flight until the next queued one starts
+            nxt = [x for x in starts if x > first]
+            last = (nxt[0] - 1) if nxt else len(window) - 1
             touched = {e[1] for e in window[first:last + 1] if e[0] == 'reg'}
             got = Counter(e[1] for e in window[first:last + 1]
                           if e[0] == 'cb' and e[3] == token)
